@@ -9,6 +9,7 @@ import Dashu.Model.Mem.Arith3
 import Dashu.Proofs.Mem.Arith4
 import Dashu.Proofs.Mem.Arith5
 import Dashu.Proofs.Mem.DivPanic
+import Dashu.Proofs.Mem.AddSubPanic
 import Dashu.Gen.Scratch
 /-
   C17 — The hand-managed integer storage is memory-safe and keeps its invariants  (PARTIAL).
@@ -986,6 +987,63 @@ example : (fragSignedDivRemEuclid 64 .vv true [1, 2, 3, 4, 5] false [7, 8, 9]).p
     (fragSignedDivRemEuclid 64 .rv true [1, 2, 3, 4, 5] true []).panic = some .divideByZero ∧
     (fragDivRem 64 true .rr [1, 2, 3] [0]).panic = some .divideByZero := by decide +kernel
 example := (div_skeletons_panic_only_on_zero_divisor 64 .vv true false true [1, 2, 3, 4, 5] [7, 8, 9]).2.2.2.1.2.1 (by decide)
+
+/-- **the add / sub storage skeletons and their panic arm** (round 8; was "observed, not proved").  For ANY operand words,
+    every ownership form and sign: `UBig + UBig` has no panic arm; `IBig + IBig` and `IBig - IBig` (`fragSigned`, op 0 / 1: `add` or
+    `sub_signed` on the magnitudes) have none; `UBig - UBig` has only the documented `panic_negative_ubig`, taken exactly under the
+    branch conditions `Dashu.Proofs.Mem.subUnderflowArm` (spelled out in `sub_underflow_arm_unfold`). -/
+theorem addsub_skeletons_panic_arms (W sqrSimple : Nat) (f : Form) (na nb : Bool) (a b : List Nat) :
+    (fragAdd W f a b).panic = none ∧
+    (fragSigned W sqrSimple 0 f na a nb b).panic = none ∧ (fragSigned W sqrSimple 1 f na a nb b).panic = none ∧
+    ((fragSub W f a b).panic = none ∨ (fragSub W f a b).panic = some .negativeUBig) ∧
+    ((fragSub W f a b).panic = some .negativeUBig ↔ Dashu.Proofs.Mem.subUnderflowArm W a b) :=
+  ⟨Dashu.Proofs.Mem.fragAdd_no_panic W f a b,
+   Dashu.Proofs.Mem.fragSigned_addsub_no_panic W sqrSimple 0 (Or.inl rfl) f na a nb b,
+   Dashu.Proofs.Mem.fragSigned_addsub_no_panic W sqrSimple 1 (Or.inr rfl) f na a nb b,
+   (Dashu.Proofs.Mem.fragSub_panic_any W f a b).1, (Dashu.Proofs.Mem.fragSub_panic_any W f a b).2⟩
+
+/-- what `subUnderflowArm` says, spelled out: both inline — by value; inline minus heap — always; heap minus inline — never;
+    heap minus heap — shorter or smaller -/
+theorem sub_underflow_arm_unfold (W : Nat) (a b : List Nat) :
+    Dashu.Proofs.Mem.subUnderflowArm W a b ↔
+      (if isSmall a && isSmall b then wval W a < wval W b
+       else if isSmall a then True
+       else if isSmall b then False
+       else a.length < b.length ∨ wval W a < wval W b) := Iff.rfl
+
+/-- **`UBig - UBig` panics iff the result would be negative** (round 8): for operands stored with the length of their value
+    (what `Repr::from_buffer` / `from_dword` guarantee: no leading zero word) the skeleton's panic is `panic_negative_ubig` when
+    `a < b` as values and there is none otherwise — in every ownership form.  (Without the hypothesis the length tests of
+    `sub_large` / the `(Small, Large)` arm are not value tests: see `sub_underflow_arm_unfold`.) -/
+theorem sub_skeleton_panics_iff_negative (W : Nat) (f : Form) (a b : List Nat)
+    (ha : a.length = wordLen W (wval W a)) (hb : b.length = wordLen W (wval W b)) :
+    (fragSub W f a b).panic = if wval W a < wval W b then some .negativeUBig else none :=
+  Dashu.Proofs.Mem.fragSub_panic_canonical W f a b ha hb
+
+-- non-vacuity: operands stored with the length of their value on both sides of the test, in the arms that only look at lengths
+example : [5, 6, 7].length = wordLen 64 (wval 64 [5, 6, 7]) ∧ [9, 9].length = wordLen 64 (wval 64 [9, 9]) ∧
+    (fragSub 64 .rv [9, 9] [5, 6, 7]).panic = some .negativeUBig ∧ (fragSub 64 .rv [5, 6, 7] [9, 9]).panic = none ∧
+    (fragSub 64 .rr [5, 6, 7] [5, 6, 8]).panic = some .negativeUBig ∧ (fragSub 64 .vv [5, 6, 8] [5, 6, 7]).panic = none ∧
+    (fragSigned 64 32 1 .vv false [5, 6, 7] false [5, 6, 8]).panic = none := by decide +kernel
+example := sub_skeleton_panics_iff_negative 64 .rr [5, 6, 7] [5, 6, 8] (by decide +kernel) (by decide +kernel)
+-- without the hypothesis the (Small, Large) arm panics although 9 > 0: a three-word zero is not a state a `Repr` can be in
+example : (fragSub 64 .rr [9] [0, 0, 0]).panic = some .negativeUBig := by decide +kernel
+
+/-- **the bit-operation and shift skeletons** (round 8): `UBig & | ^ UBig`, `and_not`, `UBig >> n` have no panic arm for ANY words,
+    form and shift count; `UBig << n` has only the documented allocation panic (`Buffer::allocate` beyond `MAX_CAPACITY = mx`,
+    before any allocator call), and none when `n / W + len + 3 ≤ mx`. -/
+theorem bit_shift_skeletons_panic_arms (W mx : Nat) (op : BitOp) (f : Form) (byVal : Bool) (a b : List Nat) (n : Nat) :
+    (fragBit W op f a b).panic = none ∧ (fragAndNot W f a b).panic = none ∧ (fragShr W byVal a n).panic = none ∧
+    ((fragShl W mx byVal a n).panic = none ∨ (fragShl W mx byVal a n).panic = some .allocTooMuch) ∧
+    (n / W + a.length + 3 ≤ mx → (fragShl W mx byVal a n).panic = none) :=
+  ⟨Dashu.Proofs.Mem.fragBit_no_panic W op f a b, Dashu.Proofs.Mem.fragAndNot_no_panic W f a b,
+   Dashu.Proofs.Mem.fragShr_no_panic W byVal a n, (Dashu.Proofs.Mem.fragShl_panic W mx byVal a n).1,
+   (Dashu.Proofs.Mem.fragShl_panic W mx byVal a n).2⟩
+
+-- non-vacuity: a shift that fits and one whose request exceeds MAX_CAPACITY (both outcomes of the `<<` clause occur)
+example : (fragShl 64 1000 true [1, 2, 3] 640).panic = none ∧ (fragShl 64 1000 false [1, 2, 3] 64000).panic = some .allocTooMuch := by
+  decide +kernel
+example := (bit_shift_skeletons_panic_arms 64 1000 .xor .rv true [1, 2, 3] [4, 5, 6, 7] 640).2.2.2.2 (by decide)
 
 /-- the flag-tracking Lehmer loop of the gcd skeleton has, as its value, C12's mirrored `lehmerGcdLoop` — for every fuel,
     operands and initial flag (the flag is the only thing C17 adds to C12's kernel) -/
